@@ -31,6 +31,18 @@ Theorem C14_frames_prefix : forall sh ops fs rest,
 Proof. exact frames_prefix'. Qed.
 Print Assumptions C14_frames_prefix.
 
+(* the headline, stated across two arbitrary runs over the same bytes: whatever the chunking,
+   the interface, the interleaving of next_message, the capacities chosen by reserve and the
+   shape of spare_capacity_mut, the frames obtained and the bytes left over are the same *)
+Theorem C14_fragmentation_independent : forall sh1 sh2 ops1 ops2 fs rest,
+  Forall frame_ok fs -> incomplete rest ->
+  fed sh1 ops1 = concat fs ++ rest -> fed sh2 ops2 = fed sh1 ops1 ->
+  delivered sh1 ops1 ++ drained_frames (final sh1 ops1) =
+    delivered sh2 ops2 ++ drained_frames (final sh2 ops2) /\
+  leftover (final sh1 ops1) = leftover (final sh2 ops2).
+Proof. exact frag_independent. Qed.
+Print Assumptions C14_fragmentation_independent.
+
 (* at every point of a run: only complete frames, in order; no byte lost or duplicated *)
 Theorem C14_only_complete : forall sh ops1 ops2 fs rest,
   Forall frame_ok fs -> incomplete rest -> fed sh (ops1 ++ ops2) = concat fs ++ rest ->
